@@ -7,3 +7,9 @@ import PGV.Props.C02
 #print axioms PGV.Props.C02.C02_empty_item_skipped
 #print axioms PGV.Props.C02.C02_flat_rule_runs_and_continues
 #print axioms PGV.Props.C02.C02_flat_unknown_one_clause
+#print axioms PGV.Props.C02.C02_walker_appends
+#print axioms PGV.Props.C02.C02_fields_append
+#print axioms PGV.Props.C02.C02_flat_rules_append
+#print axioms PGV.Props.C02.C02_fields_in_order
+#print axioms PGV.Props.C02.C02_elements_in_order
+#print axioms PGV.Props.C02.C02_rules_in_order
